@@ -343,3 +343,64 @@ spec(lean="tree_init", module="AlgoCtorInit", file=_TREE, cls="Tree", func="__in
      stmt_subst={"super().__init__(**ndata, **kwargs, source=source, comments=comments, names=names)": "self_ndata = {**ndata, **kwargs}"},
      doc="`swcgeom/core/tree.py::Tree.__init__` (arrays are objects over the buffer heap `heap`; `kwargs` = the columns handed in, `self_ndata` = "
          "the `ndata` dict of the new tree)")
+
+
+# `Tree.from_data_frame`: the frame is the dict of its columns as array OBJECTS (`df[k].to_numpy()` hands out the column's own array: pandas
+# returns a view of the column for a single-dtype column — TRUSTED, observed with np.shares_memory by the suite), `df.shape[0]` its row count.
+#   * `Tree(n, **D, source=…, comments=…, names=…)` = the translated `Tree.__init__` on the heap with `kwargs` = D (hook: a constructor call of a
+#     class whose `__init__` is a translated heap-passing function listed in HEAP_CTORS; the keywords that are not columns are not modelled)
+# TRUSTED GLUE: `names = get_names(names)` skipped, `names.cols()` = the seven default names in the order of `SWCNames.cols`, `df.columns` = the keys
+#   of the dict, `df.shape[0]` = the parameter `nrows`.
+HEAP_CTORS = {"Tree": ("tree_init", {"source", "comments", "names"})}
+
+
+def _heap_ctor(tr, e, want):
+    if tr.spec.module not in _INIT_MODS or not (isinstance(e, ast.Call) and ast.unparse(e.func) in HEAP_CTORS):
+        return None
+    lean, dropped = HEAP_CTORS[ast.unparse(e.func)]
+    cal = by_lean_global.get(lean) or [sp for sp in SPECS if sp.lean == lean][0]
+    stars = [k.value for k in e.keywords if k.arg is None]
+    if len(e.args) != 1 or len(stars) != 1 or {k.arg for k in e.keywords if k.arg is not None} - dropped:
+        raise Untranslatable(f"{tr.spec.lean}: constructor call `{ast.unparse(e)}`")
+    s1, n = _as(tr, e.args[0], "Int")
+    dt = parse_type(cal.vars[cal.params[2]])
+    s2, d, t = tr.tr(stars[0], dt)
+    if t != dt:
+        raise Untranslatable(f"{tr.spec.lean}: `**{ast.unparse(stars[0])}` is {t}")
+    h, nm = _bufs_var(tr), tr.bindname()
+    return (s1 + s2 + [f"Py.bind ({lean} v.{h} {n} {d}) fun {nm} => let v := {{ v with {h} := {nm}.1 }};"], f"{nm}.2.1", dt)
+
+
+def _filter_comp(tr, e, want):
+    """`[t for t in xs if c]` with a pure condition `c`: `xs.filter (fun t => c)`"""
+    if tr.spec.module not in _INIT_MODS or not (isinstance(e, ast.ListComp) and len(e.generators) == 1):
+        return None
+    g = e.generators[0]
+    if not (len(g.ifs) == 1 and not g.is_async and isinstance(g.target, ast.Name) and isinstance(e.elt, ast.Name) and e.elt.id == g.target.id):
+        return None
+    s0, xs, t = tr.tr(g.iter)
+    if not (isinstance(t, tuple) and t[0] == "List"):
+        return None
+    old = dict(tr.spec.subst)
+    bound = f"{lname(g.target.id)}_b"
+    tr.spec.subst = dict(old, **{g.target.id: (bound, t[1] if isinstance(t[1], str) else t[1])})
+    try:
+        s1, c, tc = tr.tr(g.ifs[0])
+    finally:
+        tr.spec.subst = old
+    if s1 or tc != "Bool":
+        raise Untranslatable(f"{tr.spec.lean}: the filter of `{ast.unparse(e)}` is not a pure condition")
+    return s0, f"(List.filter (fun {bound} => {c}) {xs})", t
+
+
+EXPR_HOOKS.append(_heap_ctor)
+EXPR_HOOKS.append(_filter_comp)
+
+spec(lean="from_data_frame", module="AlgoCtorInit", file=_TREE, cls="Tree", func="from_data_frame",
+     params=["heap", "df", "nrows"],
+     vars={"heap": "Py.Bufs", "df": "Dict String Arr", "nrows": "Int", "cols": "List String", "tree": "Dict String Arr", "k": "String"},
+     ret="Dict String Arr", out=["heap"], skip_stmts=["names = get_names(names)"],
+     subst={"names.cols()": ('["id", "type", "x", "y", "z", "r", "pid"]', "List String"), "df.columns": ("(v.df.map (·.1))", "List String"),
+            "df.shape[0]": ("v.nrows", "Int")},
+     doc="`swcgeom/core/tree.py::Tree.from_data_frame` (the frame is the dict of its columns as array objects over the buffer heap; the result is the "
+         "`ndata` dict of the new tree)")
